@@ -31,7 +31,7 @@ Proof. exact handle_syntax_error. Qed.
 Lemma C30_refuted_direct :
   exists req w, In None (q_lines req) /\ d_world (handle req w) <> w.
 Proof.
-  exists (Req RViewer 3 true 1 (Some (St MKgAclGrant (Some 1) ENone 4 (Some KEditor)))
+  exists (Req RViewer 3 (Some 1) 1 (Some (St MKgAclGrant (Some 1) ENone 4 (Some KEditor)))
               [Some (St MKgAclGrant (Some 1) ENone 4 (Some KEditor)); None]),
          (World [(0, []); (1, [MT])] [(1, 3, KOwner)]).
   split; [cbn; auto|]. vm_compute. congruence.
